@@ -12,6 +12,7 @@ LEVEL = {
     "C08": ("Bounded model checking of PartialEq/PartialOrd for FieldValue: reflexive/symmetric/transitive equality, total antisymmetric transitive order, agreement with numeric order, for all payloads of every triple of shapes within the size bound.", "5 C08"),
     "C09": ("Kernel-level only: the value-level operations an accepted query performs cannot panic. Three lemmas decided by CBMC on the real code (frontend type inference/operand check; operator kernels on every admitted operand shape; fold-count conversion). The pipeline around them is not claimed.", "5 C09"),
     "C12": ("Kernel-level only: the per-variable accept/refuse decision Type::is_valid_value equals the reference 'value fits type' for all types to depth 1 (3 thorough) with symbolic nullability and all value payloads. The missing/unused bookkeeping is not claimed.", "5 C12"),
+    "C13": ("Kernel-level only: the type a compiled query *declares* for an output (ir/indexed.rs::get_output_type, real code) follows the documented rule for every nullability of the property type: nullable inside @optional, one list level per enclosing @fold, innermost fold innermost, list nullable iff that fold is optional; fold counts are Int! outside optional scopes. That produced rows carry values of that type is not claimed.", "5 C13"),
     "C16": ("Part only: FieldValue <-> TransparentValue conversion is the identity for all payloads of the enumerated shapes. Text formats and the Type text round trip were measured to be out of reach and are not claimed.", "5 C16"),
     "C17": ("Bounded model checking of the real Type operations (intersect, is_scalar_only_subtype, equal_ignoring_nullability, is_valid_value, with_nullability, constructors/accessors) against the level-wise lattice oracle and in law form, nullability symbolic at every level, list depth <= 1 (3 thorough).", "5 C17"),
     "C18": ("Bounded model checking of FieldValueDeserializer + serde's primitive visitors for numeric/bool/option targets: decode is exact or an error for every 64-bit source value; never wrapped.", "5 C18"),
@@ -26,7 +27,6 @@ NA = {
     "C05": "relates required_properties() (HashSet walk over IndexedQuery) to resolve_property calls made by the pipeline; needs pipeline execution",
     "C10": "input is arbitrary text through a pest-generated parser into HashMap-backed AST and Schema; orders of magnitude beyond what did not finish for a 1-vertex hand-built IR",
     "C11": "quantifies over frontend outputs; same obstacle as C10",
-    "C13": "needs pipeline runs (rows produced by interpret_ir)",
     "C14": "determinism across processes and hash seeds is not a property of one symbolic execution; Kani's model has no hash seed and no second process",
     "C15": "trace recording/replay wraps the whole pipeline plus serde of the trace",
     "C19": "schema text -> pest parser -> HashMap-based validation; out of reach like C10",
